@@ -62,6 +62,7 @@ struct v_cfg {
     uint16_t rate;           uint8_t rate_fail;
     int8_t   rssi;           uint8_t rssi_fail;
     uint8_t  icon[V_ICON_CAP];     size_t icon_size;  uint8_t icon_fail;
+    uint16_t icon_big;             /* big-icon instance (V_ICON_BIG) only: size of the icon, contents not modelled */
     uint8_t  fname[V_ICON_CAP];    size_t fname_size; uint8_t fname_fail;
     uint8_t  hwid[64];       size_t hwid_len;
     uint32_t alloc_fail_mask;      /* bit k set: the k-th allocation (mod 32) returns NULL */
